@@ -1,0 +1,78 @@
+//go:build verif
+
+package object
+
+import (
+	"errors"
+	"io"
+	"os"
+	"strconv"
+	"strings"
+	"syscall"
+)
+
+// Crash / fault injection for the verification harness (build tag verif only).
+//
+//	GROL_VERIF_CRASH=<point>:<n>    the process SIGKILLs itself at the n-th hit (from 1) of the named point
+//	GROL_VERIF_FAILWRITE=<n>[:<k>]  the n-th write (from 1) through SaveGlobals writes only its first k bytes
+//	                                (default 0) and returns an error
+
+var verifHits = map[string]int{}
+
+// VerifCrashPoint is shared with package repl (which has its own one line wrapper).
+func VerifCrashPoint(point string) {
+	spec := os.Getenv("GROL_VERIF_CRASH")
+	if spec == "" {
+		return
+	}
+	name, nstr, ok := strings.Cut(spec, ":")
+	if !ok || name != point {
+		return
+	}
+	n, err := strconv.Atoi(nstr)
+	if err != nil {
+		return
+	}
+	verifHits[point]++
+	if verifHits[point] == n {
+		_ = syscall.Kill(os.Getpid(), syscall.SIGKILL)
+		select {} // never continue past the crash point
+	}
+}
+
+func verifCrashPoint(point string) { VerifCrashPoint(point) }
+
+type verifFailingWriter struct {
+	w     io.Writer
+	count int
+	failN int
+	keep  int
+}
+
+var errVerifInjected = errors.New("verif: injected write failure")
+
+func (f *verifFailingWriter) Write(p []byte) (int, error) {
+	f.count++
+	if f.count == f.failN {
+		k := min(f.keep, len(p))
+		if k > 0 {
+			_, _ = f.w.Write(p[:k])
+		}
+		return k, errVerifInjected
+	}
+	return f.w.Write(p)
+}
+
+func verifWriter(w io.Writer) io.Writer {
+	spec := os.Getenv("GROL_VERIF_FAILWRITE")
+	if spec == "" {
+		return w
+	}
+	nstr, kstr, _ := strings.Cut(spec, ":")
+	n, err := strconv.Atoi(nstr)
+	if err != nil {
+		return w
+	}
+	k, _ := strconv.Atoi(kstr)
+	return &verifFailingWriter{w: w, failN: n, keep: k}
+}
